@@ -147,7 +147,7 @@ Theorem response_label enc h size c h' :
   encoder_response enc h size = (BEncode c, h') ->
   c = enc /\ selectable c = true /\
   h_content_encoding h' = Some (coding_name c) /\ h_vary h' = h_vary h ++ [vary_accept_encoding] /\
-  h_status h' = h_status h /\ h_no_chunking h' = false /\
+  h_status h' = h_status h /\ h_no_chunking h' = false /\ h_content_length h' = None /\
   encoder_size (BEncode c) size = SzStream /\
   h_content_encoding h = None /\ h_status h <> 101 /\ h_status h <> 204 /\ h_status h <> 206 /\
   c <> Identity /\ size <> SzNone /\ size <> SzSized 0.
@@ -182,7 +182,7 @@ Proof.
                              Responded a h0 (encoder_size a size)) = Responded (BEncode c) h' sz ->
                   compressible = true /\ e = c /\ encoder_response c h size = (BEncode c, h') /\ sz = SzStream).
   { intros e He. destruct (encoder_response (if compressible then e else Identity) h size) as [a h0] eqn:Er.
-    inversion He; subst. destruct (response_label _ _ _ _ _ Er) as [Hc [_ [_ [_ [_ [_ [_ [_ [_ [_ [_ [Hni _]]]]]]]]]]]].
+    inversion He; subst. destruct (response_label _ _ _ _ _ Er) as [Hc [_ [_ [_ [_ [_ [_ [_ [_ [_ [_ [_ [Hni _]]]]]]]]]]]]].
     destruct compressible; [|congruence]. subst e. repeat split; try reflexivity. exact Er. }
   destruct ae as [items|].
   - destruct (negotiate items supported_encodings) as [e|] eqn:En; [|discriminate].
@@ -190,7 +190,7 @@ Proof.
     destruct (negotiate_sound items supported_encodings c eq_refl En) as [Hm Hp].
     exists items. repeat split; assumption.
   - destruct (Hresp Identity H) as [_ [H2 [H3 _]]]. subst c.
-    destruct (response_label _ _ _ _ _ H3) as [_ [_ [_ [_ [_ [_ [_ [_ [_ [_ [_ [Hni _]]]]]]]]]]]]. congruence.
+    destruct (response_label _ _ _ _ _ H3) as [_ [_ [_ [_ [_ [_ [_ [_ [_ [_ [_ [_ [Hni _]]]]]]]]]]]]]. congruence.
 Qed.
 
 Theorem compress_otherwise_unchanged ae compressible h size a h' sz :
